@@ -36,6 +36,10 @@ func run(e *Env) error {
 	if err := s.RecycledCases(e, e.N(500, 2500), e.N(3000, 20000), e.N(3, 1)); err != nil {
 		return err
 	}
+	// every list / bitlist / byte-list type at the boundary element counts (32, 256, 512 ... +-1), mainnet limits
+	if err := s.BoundaryLengthCases(e, e.N(2100, 9000), e.N(140000, 600000), []uint64{256}); err != nil {
+		return err
+	}
 	if err := s.CodecCases(e, e.N(700, 3000), e.N(2, 6), 0, false); err != nil {
 		return err
 	}
